@@ -89,7 +89,10 @@ def tlsgateOp (toks : List String) : String :=
   | some sel =>
     let cfg : Connector.Config := ⟨b "nla", b "check", b "ra"⟩
     -- the server's connection confirm: TYPE_RDP_NEG_RSP selecting `sel`
-    let confirm : Bytes := [0x0e, 0xd0, 0, 0, 0, 0, 0, 2, 0, 8, 0] ++ encInt .le 4 sel
+    -- `nf=`: the flag byte of the negotiation response; `bare=1`: a confirm without negotiation response
+    let nf := ((kv toks "nf").bind String.toNat?).getD 0
+    let confirm : Bytes := if kv toks "bare" == some "1" then [0x06, 0xd0, 0, 0, 0, 0, 0]
+      else [0x0e, 0xd0, 0, 0, 0, 0, 0, 2, UInt8.ofNat nf, 8, 0] ++ encInt .le 4 sel
     let env : Connector.Env := ⟨confirm, false, true, 10⟩
     let tr := Connector.trace cfg env
     let up := tr.contains .tlsUp
